@@ -424,7 +424,25 @@ def wire_case(case):
     """Logical case -> wire call (drops harness-only keys)."""
     from proto import enc
 
-    c = {k: v for k, v in case.items() if k not in ("as_time", "bbox_default", "tkind", "sus_explicit_none", "note", "clim_object", "t_ns")}
+    c = {k: v for k, v in case.items() if k not in ("as_time", "bbox_default", "tkind", "sus_explicit_none", "note", "clim_object", "t_ns",
+                                                    "omit_defaults", "decimal_f32")}
+    # a keyword left out of the real call (build_call) is left out here too: the model's own defaults
+    # (IoosQc/Model/Defaults.lean) then say what the omission means
+    if omit_defaults(case):
+        fn = c["fn"]
+        if fn == "valid":
+            if c.get("start_incl") is True:
+                del c["start_incl"]
+            if c.get("end_incl") is False:
+                del c["end_incl"]
+        elif fn == "spike" and c.get("method") == "average":
+            del c["method"]
+        elif fn == "flat" and c.get("tol") == 0:
+            del c["tol"]
+        elif fn == "atten" and c.get("check_type") == "std":
+            del c["check_type"]
+    if c["fn"] == "location" and case.get("bbox_default"):
+        c.pop("bbox", None)
     if c["fn"] in ("location", "speed") and "hops" not in c:
         c["hops"] = geodesic_hops(case["lon"], case["lat"])
     return enc(c)
